@@ -51,6 +51,8 @@ pub enum End {
     BadAck(u8),
     /// keep-alive of 1 s and silence (real time; the broker closes after 1.5 s)
     KeepAlive,
+    /// keep-alive of 1 s; the first half of a PUBLISH frame, then silence (the peer's link died mid-frame)
+    KeepAliveMidPacket,
     /// the complete CONNECT is written and the socket closed before CONNACK is read (only at point 0)
     CloseBeforeConnack,
     /// only a prefix of the CONNECT is written, then the socket is closed (only at point 0): never a session
@@ -199,6 +201,9 @@ pub struct Obs {
     pub late_lost: Option<TaskEnd>,
     pub wills_registered_after_end: bool,
     pub live_after_end: bool,
+    /// keep-alive 1 s: the broker had not ended the silent connection after 15 s
+    #[serde(default)]
+    pub keepalive_not_enforced: bool,
     pub notes: Vec<String>,
 }
 
@@ -289,7 +294,7 @@ async fn run_case(b: &Broker, case: &Case) -> Result<Obs, S6Err> {
     }
 
     // the client under test
-    let keep_alive = if case.end == End::KeepAlive { 1 } else { 60 };
+    let keep_alive = if matches!(case.end, End::KeepAlive | End::KeepAliveMidPacket) { 1 } else { 60 };
     let mut c = s6::connect(v, &case.client_id(), case.clean, keep_alive);
     if let Some(w) = &case.will {
         c = s6::with_will(c, &case.will_topic(), &case.will_payload(), w.qos, w.retain, w.props.clone());
@@ -388,8 +393,19 @@ async fn run_case(b: &Broker, case: &Case) -> Result<Obs, S6Err> {
                     x.send(&a).await?;
                     x.until_closed().await?;
                 }
-                End::KeepAlive => {
-                    x.until_closed().await?;
+                End::KeepAlive | End::KeepAliveMidPacket => {
+                    if case.end == End::KeepAliveMidPacket {
+                        x.write(&publ[..publ.len() / 2]).await?;
+                    }
+                    // the broker has to end the connection 1.5 s after the last byte; ten times that is allowed
+                    // before "the keep-alive is not enforced" is a verdict (not a watchdog event)
+                    match tokio::time::timeout(std::time::Duration::from_secs(15), x.until_closed()).await {
+                        Ok(r) => r?,
+                        Err(_) => {
+                            obs.keepalive_not_enforced = true;
+                            x.close();
+                        }
+                    }
                 }
                 End::CloseBeforeConnack | End::TruncatedConnect => unreachable!(),
             }
@@ -503,6 +519,16 @@ fn lost_facts(r: Record, lost: &Option<TaskEnd>) -> Record {
 /// Decide one case. Returns the first failing record, if any.
 fn check(case: &Case, obs: &Obs, stats: &mut Stats) -> Option<Record> {
     let expected = case.expected();
+    if matches!(case.end, End::KeepAlive | End::KeepAliveMidPacket) {
+        stats.oracle("keepalive-expiry-ends-connection");
+        if obs.keepalive_not_enforced {
+            return Some(base_record(
+                case,
+                "keepalive-expiry-missed",
+                format!("keep-alive 1 s: 15 s after the client's last byte ({}) the broker had not ended the connection, so the will could not fire", if case.end == End::KeepAliveMidPacket { "half a frame" } else { "a whole packet" }),
+            ));
+        }
+    }
     for (i, (spec, so)) in case.subs.iter().zip(obs.subs.iter()).enumerate() {
         let want = if spec.filter == FilterKind::NoMatch { 0 } else { expected };
         let sv = if spec.v5 { "v5" } else { "v4" };
@@ -711,7 +737,7 @@ fn timing_cases(rng: &mut Rng, counter: &mut u64, k: usize) -> Vec<Case> {
             ],
             session: vec![Op::Ping],
             end_point: rng.below(2) as usize,
-            end: if delayed { End::Close } else { End::KeepAlive },
+            end: if delayed { End::Close } else if i % 2 == 0 { End::KeepAlive } else { End::KeepAliveMidPacket },
             second_session: false,
             late_v5: true,
             clean: true,
@@ -755,6 +781,7 @@ fn account(case: &Case, obs: &Obs, stats: &mut Stats) {
     }
     match case.end {
         End::KeepAlive => stats.corner("keep-alive-expiry"),
+        End::KeepAliveMidPacket => stats.corner("keep-alive-expiry-mid-frame"),
         End::BadAck(_) => stats.corner("router-initiated-close"),
         End::Malformed(_) => stats.corner("protocol-error"),
         End::MidPacket => stats.corner("close-mid-packet"),
